@@ -205,3 +205,39 @@ Example C16_fused_example :
   ([(4, false, false); (6, false, false); (7, false, false); (7, true, false); (7, true, false)],
    mkReader true [1; 2; 3; 4; 5; 6; 7]) /\ script_data s = [1; 2; 3; 4; 5; 6; 7].
 Proof. vm_compute. split; reflexivity. Qed.
+
+(* ------------------------------------------------------------------------------------------ *)
+(* What is shown and stored (Model/CaptureNorm.v: ESC-free text only; the normalisations are
+   otherwise compared end to end). The crates nextest uses do not implement exactly the
+   documented normal form: known findings F13 and F14. *)
+From NextestModel Require Import Model.CaptureNorm Proofs.CaptureNorm.
+
+(* F13: the full statement fails ... *)
+Theorem C16_shown_is_documented_refuted : exists s, display_impl s <> display_doc s.
+Proof. exists [97; 9; 98; 13; 10]. vm_compute. discriminate. Qed.
+Print Assumptions C16_shown_is_documented_refuted.
+
+(* ... exactly on text with a control character other than LF *)
+Theorem C16_shown_is_documented_outside_known :
+  forall s, known_F13_display s = false -> display_impl s = display_doc s.
+Proof. exact display_outside_known. Qed.
+Print Assumptions C16_shown_is_documented_outside_known.
+
+(* F13 (TAB, CR are valid XML characters and are removed) and F14 (U+FFFE / U+FFFF are not valid
+   XML characters and are kept): the full statements fail ... *)
+Theorem C16_stored_is_documented_refuted :
+  (exists s, junit_impl s <> junit_doc s) /\ (exists s, xml_text_ok (junit_impl s) = false).
+Proof.
+  split; [exists [97; 9; 98] | exists [120; 65535; 121]]; vm_compute; [discriminate | reflexivity].
+Qed.
+Print Assumptions C16_stored_is_documented_refuted.
+
+(* ... and hold outside the two listed classes: the stored text is the documented one, and it
+   consists of valid XML characters only *)
+Theorem C16_stored_is_documented_outside_known :
+  forall s, known_F13_junit s = false -> known_F14 s = false ->
+    junit_impl s = junit_doc s /\ xml_text_ok (junit_impl s) = true.
+Proof.
+  intros s H1 H2. rewrite (junit_outside_known s H1 H2). split; [reflexivity | apply junit_doc_ok].
+Qed.
+Print Assumptions C16_stored_is_documented_outside_known.
